@@ -133,7 +133,10 @@ func mutate(r *hx.Rand, root *node, keepTop bool) string {
 		return "none"
 	}
 	pick := func(skipRoot bool) *node {
-		if skipRoot && len(els) > 1 {
+		if skipRoot {
+			if len(els) == 1 {
+				return &node{name: "#none"} // a scratch node: the mutation has no effect
+			}
 			return els[1+r.Intn(len(els)-1)]
 		}
 		return els[r.Intn(len(els))]
